@@ -1,4 +1,123 @@
-From OV Require Import Common.Base C16.Model.
-Example C16_placeholder : seq_less 0 1 = true.
-Proof. reflexivity. Qed.
-Print Assumptions C16_placeholder.
+(* C16/Properties.v — the property theorems only.  Each is closed by [exact] of a lemma from
+   Proofs.v and followed by Print Assumptions.
+
+   zlb_recv = false ("repaired"): a ZLB only acknowledges.
+   zlb_recv = true  ("defective"): what internal/l2tp/dispatch.go does today — a ZLB goes through Recv. *)
+From OV Require Import Common.Base C16.Model C16.Proofs.
+Open Scope Z_scope.
+
+(* seqLess (transcribed as uint16(a-b)&0x8000 != 0) is RFC 1982 serial-number "less than" on 16 bits:
+   b is between 1 and 2^15 steps ahead of a.  For all integers a b (the model reduces mod 2^16). *)
+Theorem C16_seq_less :
+  forall a b, seq_less a b = true <-> 1 <= (b - a) mod 65536 <= 32768.
+Proof. exact seq_less_serial. Qed.
+Print Assumptions C16_seq_less.
+
+(* from any origin o, on any window of fewer than 2^15 consecutive sequence numbers seqLess is exactly
+   the order of the offsets — this is what makes the wrap-around harmless *)
+Theorem C16_seq_less_window :
+  forall o i k, 0 <= i < 32768 -> 0 <= k < 32768 ->
+  seq_less (u16 (o + i)) (u16 (o + k)) = (i <? k).
+Proof. exact seq_less_window. Qed.
+Print Assumptions C16_seq_less_window.
+
+(* EXACTLY ONCE, IN ORDER (repaired dispatch rule).
+   For every configuration, every pair of origins oa ob (so also across 0xffff -> 0), and every
+   execution [evs] made of: submissions on either side; delivery to either side of ANY packet its peer
+   ever passed to the send callback, any number of times, in any order, or never (drop / duplicate /
+   delay / reorder); Ticks at arbitrary times (including retransmissions and the dead callback);
+   window changes — as long as fewer than 2^15 messages were submitted per direction:
+     - the messages handed to B's protocol machine are a prefix of A's submissions, and vice versa
+       (nothing invented, nothing duplicated, nothing out of order, nothing skipped);
+     - every message a side removed from its retransmission queue because of an acknowledgement
+       (index i of its submissions) had been handed to the peer's protocol machine. *)
+Theorem C16_exactly_once_in_order :
+  forall ai am ar az aw bi bm br bz bw oa ob evs,
+  honest evs = true ->
+  let s := run false (init_sys (ai, am, ar, az, aw) (bi, bm, br, bz, bw) oa ob) evs in
+  Z.of_nat (length (e_sub (s_a s))) < 32768 -> Z.of_nat (length (e_sub (s_b s))) < 32768 ->
+  (exists rest, e_sub (s_a s) = e_del (s_b s) ++ rest) /\
+  (exists rest, e_sub (s_b s) = e_del (s_a s) ++ rest) /\
+  (forall i, In i (e_acked (s_a s)) -> (i < length (e_del (s_b s)))%nat) /\
+  (forall i, In i (e_acked (s_b s)) -> (i < length (e_del (s_a s)))%nat).
+Proof. exact exactly_once_in_order. Qed.
+Print Assumptions C16_exactly_once_in_order.
+
+(* non-vacuity: a run starting at Ns = 0xffff / 0x7fff with a lost packet, a retransmission, a duplicate,
+   a reordered stale copy and a ZLB: everything is delivered once, in order, and acknowledged *)
+Example C16_exactly_once_nonvacuous :
+  let s := run false (init_sys (100, 400, 3, 50, 1) (100, 400, 3, 50, 1) 65535 32767) wrap_run in
+  honest wrap_run = true /\
+  e_del (s_b s) = [100; 101] /\ e_del (s_a s) = [200] /\ e_acked (s_a s) = [0%nat; 1%nat] /\
+  c_ns (e_ch (s_a s)) = 1 /\ c_nr (e_ch (s_b s)) = 1 /\ c_nr (e_ch (s_a s)) = 32768.
+Proof. exact wrap_run_ok. Qed.
+Print Assumptions C16_exactly_once_nonvacuous.
+
+(* THE CODE AS IT IS TODAY (ZLB through Recv) VIOLATES IT: in this 8-event honest execution B's only
+   message (200) is removed from B's queue as acknowledged, B is not dead, and A's protocol machine
+   never received it. *)
+Theorem C16_exactly_once_refuted :
+  let s := run true (init_sys witness_cfg witness_cfg 0 0) witness in
+  honest witness = true /\
+  e_sub (s_b s) = [200] /\ e_del (s_a s) = [] /\ e_acked (s_b s) = [0%nat] /\
+  c_q (e_ch (s_b s)) = [] /\ e_dead (s_b s) = 0%nat.
+Proof. exact defective_loses_message. Qed.
+Print Assumptions C16_exactly_once_refuted.
+
+(* the same execution under the repaired rule delivers both messages *)
+Example C16_witness_repaired :
+  let s := run false (init_sys witness_cfg witness_cfg 0 0) witness in
+  e_del (s_a s) = [200] /\ e_del (s_b s) = [100] /\ e_acked (s_b s) = [0%nat] /\ e_acked (s_a s) = [0%nat].
+Proof. exact repaired_delivers_witness. Qed.
+Print Assumptions C16_witness_repaired.
+
+(* WINDOW and RETRANSMISSION BOUND.  For both dispatch rules and every execution, including packets the
+   peer never sent (Inject): a side never has more messages in flight (transmitted, unacknowledged) than
+   the largest receive window its peer advertised (e_wmax: the configured PeerRWS and every later
+   SetPeerWindow value), and no queued message has been transmitted more than MaxRetries times. *)
+Theorem C16_window :
+  forall z ai am ar az aw bi bm br bz bw oa ob evs,
+  1 <= dflt ar 5 -> 1 <= dflt aw 4 -> 1 <= dflt br 5 -> 1 <= dflt bw 4 ->
+  let s := run z (init_sys (ai, am, ar, az, aw) (bi, bm, br, bz, bw) oa ob) evs in
+  forall x, count_inflight (c_q (e_ch (ep s x))) <= e_wmax (ep s x) /\
+            (forall p, In p (c_q (e_ch (ep s x))) -> 0 <= p_att p <= f_maxr (e_f (ep s x))).
+Proof. exact window_and_retries. Qed.
+Print Assumptions C16_window.
+
+(* without SetPeerWindow the bound is the configured window itself *)
+Theorem C16_window_const :
+  forall z ai am ar az aw bi bm br bz bw oa ob evs,
+  1 <= dflt ar 5 -> 1 <= dflt aw 4 -> 1 <= dflt br 5 -> 1 <= dflt bw 4 ->
+  forallb (fun e => negb (is_setwin e)) evs = true ->
+  let s := run z (init_sys (ai, am, ar, az, aw) (bi, bm, br, bz, bw) oa ob) evs in
+  count_inflight (c_q (e_ch (s_a s))) <= dflt aw 4 /\
+  count_inflight (c_q (e_ch (s_b s))) <= dflt bw 4.
+Proof. exact window_const. Qed.
+Print Assumptions C16_window_const.
+
+(* DEAD.  Tick fires the dead callback exactly when some in-flight message whose deadline has passed
+   has already been transmitted MaxRetries times (with C16_window: attempts never exceed MaxRetries,
+   so a message is transmitted at most MaxRetries times and the next expiry declares the tunnel dead). *)
+Theorem C16_dead_iff :
+  forall f c now, snd (fst (tick f c now)) = true <-> existsb (expired_last f now) (c_q c) = true.
+Proof. exact tick_dead_iff. Qed.
+Print Assumptions C16_dead_iff.
+
+(* ACKNOWLEDGEMENTS ARE OWED UNTIL SENT.  For both dispatch rules and every execution: whenever an
+   endpoint's Nr differs from the Nr in the last packet it sent (it has accepted something the peer
+   has not been told about), its ZLB timer is armed ... *)
+Theorem C16_ack_owed :
+  forall z ai am ar az aw bi bm br bz bw oa ob evs,
+  let s := run z (init_sys (ai, am, ar, az, aw) (bi, bm, br, bz, bw) oa ob) evs in
+  ack_ok (u16 ob) (s_a s) /\ ack_ok (u16 oa) (s_b s).
+Proof. exact ack_owed. Qed.
+Print Assumptions C16_ack_owed.
+
+(* ... and a Tick at or after the armed deadline that does not declare the tunnel dead sends a packet
+   carrying the current Nr and disarms the timer. *)
+Theorem C16_tick_sends_owed_ack :
+  forall f c now dl c' o ret,
+  c_zlb c = Some dl -> dl <= now -> tick f c now = (c', o, false, ret) ->
+  o <> [] /\ (forall p, In p o -> k_nr p = c_nr c) /\ c_zlb c' = None /\ c_nr c' = c_nr c.
+Proof. exact tick_sends_owed_ack. Qed.
+Print Assumptions C16_tick_sends_owed_ack.
